@@ -322,6 +322,30 @@ def gen_desc(rng, scratch):
         defs = args[1:]
         rng.shuffle(defs)
         entries.append({"file": "c14_probe.c", "directory": ".", "arguments": ["gcc"] + defs + ["-c", "c14_probe.c"]})
+    # an alias whose extension belongs to another language family than its target: the one physical file must be
+    # parsed in the language of the *resolved* path whichever alias the (hash-ordered) pre-parse loop meets first
+    if rng.random() < 0.6:
+        for n in range(rng.randint(1, 3)):
+            d = rng.choice(sorted({os.path.dirname(f) for f in desc["texts"]}))
+            tgt = os.path.join(d, f"phys_{n}.F90")
+            desc["texts"][tgt] = ["! set up", f"program p{n}", "! a comment line", "  integer :: i", "! another", f"end program p{n}"]
+            desc["links"].append((os.path.join(d, f"phys_{n}.{rng.choice(['inc', 'h', 'c'])}"), tgt))
+            if rng.random() < 0.5:
+                ctgt = os.path.join(d, f"cphys_{n}.c")
+                desc["texts"][ctgt] = ["int q; // c comment", "/* block", "   comment */", "int r;"]
+                desc["links"].append((os.path.join(d, f"cphys_{n}.f90"), ctgt))
+    # a header that only some platforms can resolve (their commands name its directory with -I): what one platform
+    # finds or fails to find must not leak into another, so the order of the [platform.*] tables must not matter
+    if len(desc["platforms"]) >= 2 and rng.random() < 0.7:
+        desc["texts"]["c14_onlyinc/c14_cfg.h"] = ["#define C14_CFG 1", "int cfg_decl;"]
+        desc["texts"]["c14_cfg_user.c"] = ['#include "c14_cfg.h"', "#ifdef C14_CFG", "int with_cfg;", "int with_cfg2;", "#else",
+                                           "int without_cfg;", "#endif"]
+        names = sorted(desc["platforms"])
+        have = set(rng.sample(names, rng.randint(1, len(names) - 1)))
+        for pname in names:
+            inc = ["-I", "c14_onlyinc"] if pname in have else []
+            desc["platforms"][pname].append({"file": "c14_cfg_user.c", "directory": ".",
+                                             "arguments": ["gcc"] + inc + ["-c", "c14_cfg_user.c"]})
     # JSON-clean (tuples -> lists) so that a replay file reproduces it exactly
     return json.loads(json.dumps({k: desc[k] for k in ("texts", "platforms", "links")}))
 
